@@ -147,6 +147,25 @@ def check_swap(ctx, P, tag=""):
             bad = bad or "%s is restored from offset %d but was saved at offset %s" % (r, off, frame.get(r))
     o.check(bad is None, "push %s / pop %s" % (pushes, pops), bad, site=asms[0], construct="swap push/pop symmetry")
 
+    if not tag:
+        # the two remaining pieces of SysV callee-saved state: MXCSR control bits and the x87 control word
+        ins = parse_asm(asms[0].d)
+        sw = [i for i, (op, a) in enumerate(ins) if op.startswith("mov") and len(a) == 2 and a[1] in ("%rsp", "%esp")]
+        for rule, what, st, ld in (("fp.mxcsr", "MXCSR control bits (rounding mode, FTZ/DAZ, exception masks)", ("stmxcsr", "vstmxcsr"), ("ldmxcsr", "vldmxcsr")),
+                                   ("fp.x87cw", "x87 control word (rounding and precision control)", ("fnstcw", "fstcw"), ("fldcw",))):
+            o = ctx.ob(rule, f, "the template stores the %s on the old stack before the stack switch and reloads it from the new stack after it (the SysV ABI "
+                       "lists it as callee-saved, like rbx/rbp/r12-r15)" % what,
+                       "fiber_yield is an ordinary call for the compiler and for libm: a fiber that set a rounding mode resumes with the mode of "
+                       "whichever fiber (or thread) ran in between")
+            if len(sw) != 1:
+                o.fail("no unique stack switch (mov ..., %rsp) in the template", site=asms[0], construct="swap asm shape")
+                continue
+            saved = any(op in st for op, a in ins[:sw[0]])
+            restored = any(op in ld for op, a in ins[sw[0] + 1:])
+            o.check(saved and restored, "%s before the stack switch, %s after it" % ("/".join(st), "/".join(ld)),
+                    "the template never %s the %s: it is shared by all fibers of a thread and travels to whichever fiber runs next" %
+                    ("saves" if not saved else "restores", what.split(" (")[0]), site=asms[0], construct="%s not switched" % what.split(" (")[0])
+
     o = ctx.ob("rip" + tag, f, "the resume address is loaded from displacement 8 x pops of the new stack, the final `add` skips exactly that slot, control jumps to the loaded "
                "address, and the label it was taken from is the end of the template: the resumed rsp equals rsp at the asm's entry",
                "a wrong displacement jumps to a saved register value; a wrong skip leaves the resumed fiber's rsp off by a slot: its next `ret` goes wild")
